@@ -27,3 +27,36 @@ def run(cx):
         if fn is not None:
             S.s_pteq(cx, 'S-PTEQ', fn)
     D.d_deadpure(cx, 'D-DEADPURE', ('gm_sm9',), floor_calls=500)
+
+
+_run1 = run
+
+
+def run(cx):
+    from .. import rules_s as S, rules_i as I
+    _run1(cx)
+    F = cx.F
+    S.s_siblings(cx, 'S-SIBLING')
+    # point-at-infinity convention (1 : 1 : 0): point_equals and the adders rely on non-zero X, Y of the identity
+    for q, want in (('gm_sm9::points::<impl points::Point>::zero', 'Point::Point{one(), one(), zero()}'),
+                    ('gm_sm9::points::<impl points::TwistPoint>::zero', 'TwistPoint::TwistPoint{one(), one(), zero()}')):
+        fn = cx.fn(q, 'I-INF-ENC')
+        if fn is not None:
+            r = [v for _, v in I.returns(fn, F, True)]
+            cx.add('I-INF-ENC', fn.short, r == [want], 'the identity is encoded as (1 : 1 : 0) (point equality would otherwise equate it with every point): %s' % r, fn.loc())
+    ones = {'gm_sm9::fields::fp::<impl fields::FieldElement for [u64; 4]>::one': 'SM9_MODP_MONT_ONE', 'gm_sm9::fields::fp::<impl fields::FieldElement for [u64; 4]>::zero': 'SM9_ZERO',
+            'gm_sm9::fields::fp2::<impl fields::FieldElement for fields::fp2::Fp2>::one': 'Fp2::Fp2{one(), zero()}', 'gm_sm9::fields::fp2::<impl fields::FieldElement for fields::fp2::Fp2>::zero': 'Fp2::Fp2{zero(), zero()}'}
+    for q, want in ones.items():
+        fn = cx.fn(q, 'I-INF-ENC')
+        if fn is not None:
+            r = [v for _, v in I.returns(fn, F, True)]
+            cx.add('I-INF-ENC', fn.short, r == [want], 'field constant %s' % r, fn.loc())
+    # affine conversion: (X / Z^2, Y / Z^3, 1), with the Z = 1 shortcut; nothing else
+    fn = cx.fn('gm_sm9::points::<impl points::Point>::to_affine_point', 'I-AFFINE')
+    if fn is not None:
+        r = sorted(v for _, v in I.returns(fn, F, True))
+        want = sorted(['Point::Point{$self.x, $self.y, one()}',
+                       'Point::Point{fp_mul($self.x, fp_sqr(fp_inv($self.z))), fp_mul(fp_mul($self.y, fp_inv($self.z)), fp_sqr(fp_inv($self.z))), one()}'])
+        cx.add('I-AFFINE', fn.short, r == want, 'G1 affine conversion returns (X/Z^2, Y/Z^3, 1) or (X, Y, 1) when Z = 1 and nothing else (the pairing relies on infinity normalising to (0, 0, 1))', fn.loc(), {'got': r})
+        conds = sorted(str(c) for c, _ in I.returns(fn, F, True))
+        cx.add('I-AFFINE', fn.short + '/branch', all('u256_cmp($self.z, SM9_MODP_MONT_ONE)' in c for c in conds), 'the shortcut is taken exactly on Z == mont(1)', fn.loc())
